@@ -20,7 +20,12 @@
  *   mulbp <name> <cap> <k>...             -> ok <kG> ...       ec_point_mult_bp
  *   twinbp <name> <cap> <Q> <l> <k>...    -> ok <kG+lQ> ...    ec_point_twin_mult_bp
  *   twin <name> <cap> <P> <k> <Q> <l>...  -> ok <kP+lQ> ...    ec_point_twin_mult
+ *   ladder <name> <cap> <P> <k>           -> ok <step> ...     left-to-right double-and-add for k*P done HERE with
+ *                                            ec_point_add only; every intermediate point (after each doubling and each
+ *                                            addition) is printed so that the reference can check the steps one by one
  *   chk <name> <P>...                     -> ok 0|-1 ...       ec_point_check_affine (0 = on curve)
+ * Before every library call 64 KiB of stack are filled with 0xA5: locals the library forgets to initialise then hold
+ * a defined non-zero pattern instead of whatever the previous call left there (results become reproducible).
  * A non-zero return code of the library is reported in place of the point as "err<rc>". */
 #include <sys/param.h>
 #include <sys/types.h>
@@ -104,6 +109,11 @@ static void pt_put(int rc, ec_point_p pt) {
 	if (rc != 0) { printf("err%d", rc); return; }
 	if (pt->infinity) { fputs("inf", stdout); return; }
 	bn_put_hex(&pt->x); putchar(','); bn_put_hex(&pt->y);
+}
+
+static void __attribute__((noinline)) dirty_stack(void) {
+	volatile unsigned char junk[65536];
+	for (size_t i = 0; i < sizeof(junk); i++) junk[i] = 0xA5;
 }
 
 /* ---- curves ---- */
@@ -207,6 +217,7 @@ int main(void) {
 			for (i = 4; i < nt; i++) {
 				ec_point_t a, b;
 				pt_from_str(&a, pbits, tok[3]); pt_from_str(&b, pbits, tok[i]);
+				dirty_stack();
 				rc = (op[0] == 'a') ? ec_point_add(&a, &b, cv) : ec_point_sub(&a, &b, cv);
 				pt_put(rc, &a);
 			}
@@ -214,6 +225,7 @@ int main(void) {
 			for (i = 3; i < nt; i++) {
 				ec_point_t a;
 				pt_from_str(&a, pbits, tok[i]);
+				dirty_stack();
 				rc = ec_point_add(&a, &a, cv);
 				pt_put(rc, &a);
 			}
@@ -222,6 +234,7 @@ int main(void) {
 			for (i = 5; i < nt; i++) {
 				ec_point_t a;
 				pt_from_str(&a, pbits, tok[i]);
+				dirty_stack();
 				if (tok[3][0] == 'a') {
 					rc = ec_point_affine_dbl_n(&a, j, cv);
 				} else {
@@ -237,6 +250,7 @@ int main(void) {
 			for (i = 4; i < nt; i++) {
 				ec_point_t a; bn_t k;
 				pt_from_str(&a, pbits, tok[3]); bn_from_hex(&k, dbl_bits, tok[i]);
+				dirty_stack();
 				rc = ec_point_unknown_pt_mult(&a, &k, cv);
 				pt_put(rc, &a);
 			}
@@ -245,6 +259,7 @@ int main(void) {
 				ec_point_t r; bn_t k;
 				pt_from_str(&r, pbits, "inf"); r.infinity = 0; /* result object: initialised, content garbage */
 				bn_from_hex(&k, dbl_bits, tok[i]);
+				dirty_stack();
 				rc = ec_point_mult_bp(&k, cv, &r);
 				pt_put(rc, &r);
 			}
@@ -254,6 +269,7 @@ int main(void) {
 				pt_from_str(&q, pbits, tok[3]); bn_from_hex(&l, dbl_bits, tok[4]);
 				pt_from_str(&r, pbits, "inf"); r.infinity = 0;
 				bn_from_hex(&k, dbl_bits, tok[i]);
+				dirty_stack();
 				rc = ec_point_twin_mult_bp(&k, &q, &l, cv, &r);
 				pt_put(rc, &r);
 			}
@@ -263,8 +279,29 @@ int main(void) {
 				pt_from_str(&p, pbits, tok[3]); bn_from_hex(&k, dbl_bits, tok[4]);
 				pt_from_str(&q, pbits, tok[5]); bn_from_hex(&l, dbl_bits, tok[i]);
 				pt_from_str(&r, pbits, "inf"); r.infinity = 0;
+				dirty_stack();
 				rc = ec_point_twin_mult(&p, &k, &q, &l, cv, &r);
 				pt_put(rc, &r);
+			}
+		} else if (!strcmp(op, "ladder")) {
+			ec_point_t acc, p; bn_t k;
+			pt_from_str(&p, pbits, tok[3]); bn_from_hex(&k, dbl_bits, tok[4]);
+			pt_from_str(&acc, pbits, "inf");
+			rc = 0;
+			int started = 0;
+			for (size_t bit = strlen(tok[4]) * 4; bit > 0 && rc == 0; bit--) {
+				size_t bi = bit - 1;
+				int set = (bi / BN_DIGIT_BITS < k.digits) && ((k.num[bi / BN_DIGIT_BITS] >> (bi % BN_DIGIT_BITS)) & 1);
+				if (!started && !set) continue;              /* leading zero bits */
+				started = 1;
+				dirty_stack();
+				rc = ec_point_add(&acc, &acc, cv);
+				pt_put(rc, &acc);
+				if (rc == 0 && set) {
+					dirty_stack();
+					rc = ec_point_add(&acc, &p, cv);
+					pt_put(rc, &acc);
+				}
 			}
 		} else {
 			printf(" FATAL unknown op %s\n", op); exit(3);
